@@ -22,7 +22,9 @@ def rule_y1(chk: Check, ix: Index):
         for n in own_nodes(f.node):
             if isinstance(n, ast.Call) and norm_stmt(n.func) in ERR_CLASSES:
                 chk.count("Y1-error-ownership")
-                key = f"{q}:{norm_stmt(n.func)}({norm_stmt(n.args[0])[:50] if n.args else ''})"
+                from .. import helpers as _helpers
+                q_owner = _helpers.owner(f.rel, ix.modules[f.rel], q) if f.rel in ix.modules else q
+                key = f"{q_owner}:{norm_stmt(n.func)}({norm_stmt(n.args[0])[:50] if n.args else ''})"
                 if q in BUILDERS:
                     chk.ok("Y1-error-ownership", key, f"{f.rel}:{n.lineno}")
                 else:
